@@ -22,7 +22,13 @@ from vgi_rpc.rpc._common import _EMPTY_SCHEMA, MethodType, RpcError
 from vgi_rpc.rpc._debug import fmt_batch, wire_request_logger, wire_stream_logger, wire_transport_logger
 from vgi_rpc.rpc._transport import RpcTransport
 from vgi_rpc.rpc._types import _TICK_BATCH, AnnotatedBatch, RpcMethodInfo, rpc_methods
-from vgi_rpc.rpc._wire import _read_batch_with_log_check, _read_stream_header, _read_unary_response, _send_request
+from vgi_rpc.rpc._wire import (
+    _drain_stream,
+    _read_batch_with_log_check,
+    _read_stream_header,
+    _read_unary_response,
+    _send_request,
+)
 from vgi_rpc.shm import ShmSegment, maybe_write_to_shm
 from vgi_rpc.utils import ArrowSerializableDataclass, IpcValidation, ValidatedReader, empty_batch, new_ipc_stream
 
@@ -244,10 +250,27 @@ class StreamSession:
                 self._output_reader = ValidatedReader(ipc.open_stream(self._reader_stream), self._ipc_validation)
             except (pa.ArrowInvalid, OSError, StopIteration):
                 return
+        self._drain_output()
+
+    def _drain_output(self) -> None:
+        """Read the rest of the output stream so the transport ends at a message boundary.
+
+        Log batches met on the way are still delivered.  If the ``on_log``
+        callback raises, the remainder is drained without it before the
+        exception propagates: an exception out of ``close()`` / ``cancel()``
+        must not leave unread bytes for the next call to trip over.
+        """
+        if self._output_reader is None:
+            return
         _MAX_DRAIN = 10_000
-        with contextlib.suppress(StopIteration, RpcError, pa.ArrowInvalid, OSError):
-            for _ in range(_MAX_DRAIN):
-                _read_batch_with_log_check(self._output_reader, self._on_log, self._external_config, shm=self._shm)
+        try:
+            with contextlib.suppress(StopIteration, RpcError, pa.ArrowInvalid, OSError):
+                for _ in range(_MAX_DRAIN):
+                    _read_batch_with_log_check(self._output_reader, self._on_log, self._external_config, shm=self._shm)
+        except Exception:
+            with contextlib.suppress(Exception):
+                _drain_stream(self._output_reader)
+            raise
 
     def cancel(self) -> None:
         """Signal the server to stop processing and discard pending work.
@@ -282,10 +305,7 @@ class StreamSession:
                 self._output_reader = ValidatedReader(ipc.open_stream(self._reader_stream), self._ipc_validation)
             except (pa.ArrowInvalid, OSError, StopIteration):
                 return
-        _MAX_DRAIN = 10_000
-        with contextlib.suppress(StopIteration, RpcError, pa.ArrowInvalid, OSError):
-            for _ in range(_MAX_DRAIN):
-                _read_batch_with_log_check(self._output_reader, self._on_log, self._external_config, shm=self._shm)
+        self._drain_output()
 
     def __enter__(self) -> StreamSession:
         """Enter context manager."""
